@@ -205,7 +205,9 @@ class UnitsSerializer(Serializer):
             if matched_regex:
                 data = matched_regex.group(1)
             if data.startswith('nan'):
-                unit_str = data[len('nan'):].strip()
+                # str() of a quantity omits the leading 1 of reciprocal
+                # units ('nan / second'), so parse the units as '1 ...'.
+                unit_str = '1' + data[len('nan'):]
                 unit_data = math.nan * units(unit_str)
             else:
                 unit_data = units(data)
